@@ -1,6 +1,7 @@
 package main
 
 import (
+	"net/textproto"
 	"os"
 	"time"
 	"fmt"
@@ -129,6 +130,11 @@ func init() {
 		"time.Sleep":           nop,
 		"time.Now":             hTimeNow,
 		"(net/http.Header).Get": hHeaderGet,
+		"(net/http.Header).Set": hHeaderSet,
+		"(net/http.Header).Add": hHeaderSet,
+		"(net/http.Header).Del": hHeaderSet,
+		"net/http.Error":        hHTTPError,
+		"net/http.NotFound":     hHTTPError,
 		"(time.Time).Format": func(e *Exec, st *State, fv FuncV, a []Value, cc *ssa.CallCommon) Value {
 			e.res.noteOnce("placeholder: Time.Format returns \"<time>\"")
 			return e.strConst("<time>")
@@ -847,8 +853,69 @@ func hOnceDo(e *Exec, st *State, fv FuncV, a []Value, cc *ssa.CallCommon) Value 
 // ---------- fmt / errors ----------
 
 func hSprintf(e *Exec, st *State, fv FuncV, a []Value, cc *ssa.CallCommon) Value {
-	e.res.noteOnce("fmt.Sprint* results are the placeholder string \"<fmt>\"")
+	// concrete format and arguments: computed by the engine with the real fmt
+	if fv.fn != nil && fv.fn.Name() == "Sprintf" {
+		if fs, ok := a[0].(*StrV); ok {
+			if format, ok := strConcrete(fs); ok {
+				if args, ok := e.concreteArgs(st, a[1]); ok {
+					return e.strConst(fmt.Sprintf(format, args...))
+				}
+			}
+		}
+	}
+	e.res.noteOnce("fmt.Sprint* with symbolic or unsupported arguments returns the placeholder string \"<fmt>\"")
 	return e.strConst("<fmt>")
+}
+
+// concreteArgs converts a variadic []any of concrete basic values to Go values.
+func (e *Exec) concreteArgs(st *State, v Value) ([]interface{}, bool) {
+	sl, ok := v.(SliceV)
+	if !ok {
+		return nil, false
+	}
+	if sl.base.IsNil() {
+		return nil, true
+	}
+	if !sl.len.IsConst() {
+		return nil, false
+	}
+	n := int(sl.len.val)
+	arr := e.loadArr(st, sl)
+	var out []interface{}
+	for i := 0; i < n; i++ {
+		iv, ok := arr.e[sl.off+i].(IfaceV)
+		if !ok || iv.t == nil {
+			return nil, false
+		}
+		switch x := iv.v.(type) {
+		case *Term:
+			if !x.IsConst() {
+				return nil, false
+			}
+			if x.sort.IsBool() {
+				out = append(out, x.val == 1)
+				continue
+			}
+			_, signed, isint := isInt(iv.t)
+			if !isint {
+				return nil, false
+			}
+			if signed {
+				out = append(out, x.SVal())
+			} else {
+				out = append(out, x.val)
+			}
+		case *StrV:
+			cs, ok := strConcrete(x)
+			if !ok {
+				return nil, false
+			}
+			out = append(out, cs)
+		default:
+			return nil, false
+		}
+	}
+	return out, true
 }
 
 func (e *Exec) namedType(pkgPath, name string) types.Type {
@@ -895,11 +962,25 @@ func (e *Exec) unwrapErr(st *State, iv IfaceV) (IfaceV, bool) {
 			return in, in.t != nil
 		}
 	}
-	// other types with Unwrap: not modelled
+	// a custom Unwrap() error method: run it (it must not fork); custom Is/As: not modelled
 	ms := e.prog.MethodSets.MethodSet(iv.t)
 	for i := 0; i < ms.Len(); i++ {
-		if ms.At(i).Obj().Name() == "Unwrap" || ms.At(i).Obj().Name() == "Is" || ms.At(i).Obj().Name() == "As" {
-			panic(e.abort("errors.Is/As through custom %s method of %v", ms.At(i).Obj().Name(), iv.t))
+		if n := ms.At(i).Obj().Name(); n == "Is" || n == "As" {
+			panic(e.abort("errors.Is/As through custom %s method of %v", n, iv.t))
+		}
+	}
+	for i := 0; i < ms.Len(); i++ {
+		if ms.At(i).Obj().Name() == "Unwrap" {
+			fn := e.prog.MethodValue(ms.At(i))
+			if fn == nil || fn.Signature.Results().Len() != 1 {
+				panic(e.abort("errors.Is/As: unsupported Unwrap method of %v", iv.t))
+			}
+			r := e.runNestedStrict(st, FuncV{fn: fn}, []Value{iv.v})
+			in, ok := r.(IfaceV)
+			if !ok {
+				panic(e.abort("errors.Is/As: Unwrap of %v does not return an error", iv.t))
+			}
+			return in, in.t != nil
 		}
 	}
 	return IfaceV{}, false
@@ -1113,4 +1194,47 @@ func hTimeParse(e *Exec, st *State, fv FuncV, a []Value, cc *ssa.CallCommon) Val
 	sec := uint64(t.Unix() + 62135596800)
 	e.res.noteOnce("model: time.Parse on concrete strings evaluated by the engine")
 	return TupleV{[]Value{&StructV{[]Value{e.c.Const(64, uint64(t.Nanosecond())), e.c.Const(64, sec), Ptr{}}}, IfaceV{}}}
+}
+
+// hHeaderSet: Set/Add/Del on an http.Header with the key canonicalised by the engine.
+func hHeaderSet(e *Exec, st *State, fv FuncV, a []Value, cc *ssa.CallCommon) Value {
+	m := a[0].(MapV)
+	key := e.strConst(textproto.CanonicalMIMEHeaderKey(e.cstr(a[1])))
+	switch fv.fn.Name() {
+	case "Del":
+		e.mapDelete(st, m, key)
+	case "Set", "Add":
+		var vals []Value
+		if fv.fn.Name() == "Add" {
+			if old, ok := e.mapLookup(st, m, key); ok {
+				sl := old.(SliceV)
+				n := int(e.concretize(st, sl.len, "header values"))
+				arr := e.loadArr(st, sl)
+				vals = append(vals, arr.e[sl.off:sl.off+n]...)
+			}
+		}
+		vals = append(vals, a[2])
+		p := e.alloc(st, &ArrayV{vals})
+		e.mapUpdate(st, m, key, SliceV{base: p, len: e.c.Const(64, uint64(len(vals))), cap: len(vals)})
+	}
+	return nil
+}
+
+// hHTTPError: http.Error(w, msg, code) / http.NotFound(w, r): the status reaches the ResponseWriter.
+func hHTTPError(e *Exec, st *State, fv FuncV, a []Value, cc *ssa.CallCommon) Value {
+	iv := a[0].(IfaceV)
+	if iv.t == nil {
+		e.checkPanic(st, e.c.True, "nil ResponseWriter")
+	}
+	var code Value = e.c.Const(64, 404)
+	if fv.fn.Name() == "Error" {
+		code = a[2]
+	}
+	m := e.prog.LookupMethod(iv.t, nil, "WriteHeader")
+	if m == nil {
+		panic(e.abort("ResponseWriter without WriteHeader"))
+	}
+	e.res.noteOnce("model: http.Error/NotFound call WriteHeader(code) on the ResponseWriter")
+	e.pushCall(st, FuncV{fn: m}, []Value{iv.v, code}, nil)
+	return pushedFrame{}
 }
